@@ -76,14 +76,55 @@ def indexBulk (a : Active) (ms : List Meta) : Active :=
 /-- a history of bulks delivered to one active fraction -/
 def run (a : Active) (h : List (List Meta)) : Active := h.foldl indexBulk a
 
+/-! ## concurrent index workers
+
+Several `appendWorker`s run at once.  Each iteration is cut into the part up to and including `SetMultiple` /
+`Filter` (`phaseS`: it fixes the bulk's block index, claims the ids under the `DocsPositions` mutex and yields the
+collector) and the part that publishes the collector (`phaseI`: `AppendIDs`, token list, stats).  A schedule is any
+sequence of `start bulk` / `finish k` (publish the k-th waiting collector) events.  (In Go `DocBlocks.Append` and
+`SetMultiple` are two atomic steps; what the argument needs - every bulk has its own block index - holds for any
+order of them, so they are taken as one step here.) -/
+
+def phaseS (a : Active) (ms : List Meta) : Active × Collector :=
+  ({ a with dp := (dedupCollector a ms).2, blocks := a.blocks ++ [docBlock ms 0] }, (dedupCollector a ms).1)
+
+def phaseI (a : Active) (c : Collector) : Active :=
+  { a with
+    ids := a.ids ++ c.ids
+    tokens := putLIDs (tokenListAppend a.tokens c.tokensValues) c.tokensValues
+      (groupLIDsByToken c (List.range' a.ids.length c.ids.length))
+    docsTotal := a.docsTotal + c.docsCounter
+    docsRaw := a.docsRaw + c.sizeCounter
+    from_ := if a.from_ > c.minMID then c.minMID else a.from_
+    to := if a.to < c.maxMID then c.maxMID else a.to }
+
+structure CState where
+  a : Active
+  pending : List Collector
+
+inductive Ev where
+  | start (ms : List Meta)
+  | finish (k : Nat)
+
+def cstep (s : CState) : Ev → CState
+  | .start ms => ⟨(phaseS s.a ms).1, s.pending ++ [(phaseS s.a ms).2]⟩
+  | .finish k =>
+    match s.pending[k]? with
+    | none => s
+    | some c => ⟨phaseI s.a c, s.pending.eraseIdx k⟩
+
+def crun (s : CState) (evs : List Ev) : CState := evs.foldl cstep s
+
+/-- the bulks a schedule starts -/
+def startedBulks : List Ev → List (List Meta)
+  | [] => []
+  | .start ms :: evs => ms :: startedBulks evs
+  | .finish _ :: evs => startedBulks evs
+
 /-! ## observations -/
 
 /-- the queued LIDs of a token (`[]` for an unknown token) -/
 def queue (a : Active) (t : Bytes) : List Nat := (a.tokens.lookup t).getD []
-
-/-- the ids a token search lists: `GetLIDs` sorts the queue and drops equal LIDs, then LIDs are mapped to ids;
-here: ids of the queued LIDs in queue order with equal LIDs dropped -/
-def hits (a : Active) (t : Bytes) : List ID := (queue a t).eraseDups.map fun l => a.ids.getD l (0, 0)
 
 /-- the documents of the fraction (without the system entry) in LID order -/
 def docIds (a : Active) : List ID := a.ids.drop 1
